@@ -41,3 +41,8 @@ Example c05_nonvacuous :
   let s := run (init 2 false ths) (map (fun i => Run i CAuto) [0;0;0;0; 2;1; 2; 2; 2; 2; 2; 2; 2; 2; 2; 2; 2; 2; 2; 2; 2; 2; 2; 2; 2; 2; 2; 2; 2; 2; 2; 3; 3; 3; 3; 3; 3]) in
   tclosed s = 1 /\ inactive s = [6] /\ reason s = Some 6 /\ ctx_done s = true /\ creturned s = true.
 Proof. vm_compute. repeat split; reflexivity. Qed.
+
+(* ... also when the channel is served with a context that has already ended (accepted while Shutdown
+   runs): the active event is still delivered exactly once and first, then the read loop exits *)
+Theorem c05_lifecycle_any_initial_context : forall d prog, life_ok (life_run_ctx d prog) = true.
+Proof. exact life_run_ctx_ok. Qed.
